@@ -48,7 +48,8 @@ VEA = "FASTOR_USE_VECTORISED_EXPR_ASSIGN"
 
 def configs(tier):
     if tier == "quick":
-        return [Config(isa=i) for i in ("S2", "A2", "A5")] + [Config(isa="A5", defs=(VEA,))]
+        # VEA on the two other main ISAs runs the 2-D / n-D / fixed-view families only (the code the macro switches)
+        return [Config(isa=i) for i in ("S2", "A2", "A5")] + [Config(isa="A5", defs=(VEA,)), Config(isa="A2", defs=(VEA,)), Config(isa="S2", defs=(VEA,))]
     return ([Config(isa=i) for i in ALL_ISAS] + [Config(isa=i, defs=(VEA,)) for i in ALL_ISAS] +
             [Config(isa="A5", std="17"), Config(isa="A2", san=True, opt="O1")])
 
@@ -179,6 +180,11 @@ def fam_seq3d(g, t, W):
         if g.full or len(sh) == 3:
             g.wr(f"seq{len(sh)}d", t, sh, ks, [0, 3], ["expr2"], m2 | M_ONE_CONTENT, 0.4)
     g.wr("seq3d", t, (2, 2, 2 * W + 1), [SE(2), SE(2), SE(W)], [0, 1, 2, 3, 4], ["tensor"], RS_FULLQ, 0.2)
+    # outer ranges that are strided and select more than one index, with a last range of whole vectors: the vector branch of the n-D
+    # view has to build its store offset from every range's step
+    g.wr("seq3d", t, (3, 3, 2 * W + 1), [SE(2), SE(2), SE(W)], [0, 1, 2, 3, 4], ["tensor"], RS_FULLQ, 0.2)
+    g.wr("seq3d", t, (3, 3, 2 * W + 1), [SE(2), SE(2), SE(2 * W)], [0, 1, 2, 3, 4], ["tensor"], RS_FULLQ, 0.2)
+    g.wr("seq3d", t, (3, 2, 2 * W), [S, S, S], [0, 1, 2, 3, 4], ["expr1"], RS_THIN | M_LASTFULLQ | M_SRC_THIN3 | M_ONE_CONTENT, 0.4)
 
 
 def fam_fseq(g, t, W):
@@ -261,8 +267,12 @@ def cases(tier, cfg):
         types = ["f64", "i32"]
     elif cfg.std != "14" or g.vea:
         types = ["f64", "f32", "i32"]
+    reduced = g.vea and tier == "quick" and cfg.isa != "A5"
     for t in types:
         W = cfg.w(t)
+        if reduced:
+            fam_seq2d(g, t, W); fam_seq3d(g, t, W); fam_fseq(g, t, W)
+            continue
         fam_elem(g, t, W)
         fam_seq1d(g, t, W)
         fam_seq2d(g, t, W)
@@ -294,12 +304,12 @@ def bounds(tier):
               "contents: index-coded and all-ones unless noted. Types f64,f32,i32,i64 (int64_t). ")
     if tier == "quick":
         return common + (
-            "S2,A2,A5 (g++ -O2 -DNDEBUG -std=c++14) and A5 with -DFASTOR_USE_VECTORISED_EXPR_ASSIGN. Depth 1: scalar element assignment "
+            "S2,A2,A5 (g++ -O2 -DNDEBUG -std=c++14), A5 with -DFASTOR_USE_VECTORISED_EXPR_ASSIGN (f64,i32; all families) and S2,A2 with it (2-D, n-D and fixed-view families). Depth 1: scalar element assignment "
             "A(i,..) op= x, all index tuples in [-n,n-1]^k on (W+1),(3,5),(2,3,4) x 5 operators. seq rank 1, N in {1,2,3,W-1,W,W+1,2W,2W+1,2W+3}: "
             "FULL x 3 encodings x 5 operators x {scalar, same range of B}; FULLQ x ALLFIT sources (THIN5 where that exceeds 1.3e6 points) x each "
             "operator; FULLQ x THIN3 x {const slice, B(r)+1, 2*B(r)-B(r')}; whole tensor and evaluated product P%Q of extent E in "
             "{1,2,W-1,W,W+1,2W,2W+1,2W+3} on N=2W+3. seq rank 2 on (3,5),(4,W+3),(3,2W): FULLQ x FULLQ x 5 operators x {scalar, same, slice "
-            "(THIN5/THIN3 per axis), const slice, expr1, expr2}; tensor/product right-hand sides for four extent pairs on (4,W+3). seq rank 3 on "
+            "(THIN5/THIN3 per axis), const slice, expr1, expr2}; tensor/product right-hand sides for four extent pairs on (4,W+3). seq rank 3 (also (3,3,2W+1) with extents (2,2,W/2W) from a tensor and (3,2,2W) from an expression: strided outer ranges over whole-vector last ranges) on "
             "(2,2,2W+1): THIN x THIN x FULLQ. fseq: W-boundary family (11 ranges, three spellings rotating) on N=2W+1 x 5 operators x {scalar, same, "
             "whole tensor}; 12 range pairs on (3,2W+1), 3 triples on (2,3,2W+1). mixed kinds: 12 rank-2 combinations on (3,W+1), 6 rank-3 on "
             "(2,3,W+1) x {scalar, slice}. BFS (i32,i64; operators =,+=,*=; rhs scalar, slice): rank 1 N in {W+1,2W+3} depth 3 (alphabet 11 ranges x 9); "
